@@ -72,7 +72,7 @@ def gen(rng, i, tier):
             if rng.random() < rng.choice([0.3, 0.6]):
                 ks = rng.randrange(0, 9) if rng.random() < 0.1 else None
                 ns.append([b.numerator, b.denominator, c, rng.choice(kinds), 0, ks])
-    types = rng.choice([ALLTYPES, ALLTYPES, DEFAULT, "".join(t for t in ALLTYPES if rng.random() < 0.6), "23", "34", "234"])
+    types = rng.choice([ALLTYPES, ALLTYPES, DEFAULT, "".join(t for t in ALLTYPES if rng.random() < 0.6), "23", "34", "234", "", "1", "M", "3"])
     return {"ns": ns, "types": types, "mode": rng.choice([1, 2, 3]), "join": rng.random() < 0.7, "ph": rng.choice([1, 2, 3]), "pt": rng.choice([1, 2, 3]),
             "min": rng.choice([1, 1, 2, 3, 4])}
 
